@@ -37,6 +37,10 @@ def gen(rng, i, tier):
         "mode": rng.choice(["depth", "depth", "depth", "infinite"]),
         "nseed": rng.randrange(1 << 30),
     }
+    if case["mode"] == "infinite" and case["n_gram"] < 0:
+        case["n_gram"] = 2      # unbounded contexts without a depth bound: infinitely many non-terminals
+    if case["n_gram"] < 0:
+        case["max_depth"] = min(case["max_depth"], 3)
     # keep the language small enough to enumerate
     while case["max_depth"] > 1:
         tt = TypedTerms([(n, _tt(t)) for n, t in case["prims"]], {}, _tt(req), case["max_depth"], case["min_var"],
@@ -243,10 +247,13 @@ def check(case, M):
     spec_mv = mv if not infinite else 0
     full = TypedTerms(prims, forb, request, spec_md, spec_mv, const_types, rec, see_parent=True)
     hyp_ngram = ng >= 2 or ng < 0 or not forb
-    terms = full.terms()
     key = json.dumps([case["prims"], case["forbidden"], case["request"], md, mv, ng, rec, case["const_types"], case["mode"]])
-    if len(terms) > MAX_LANG["thorough"]:
+    while infinite and spec_md > 2 and full.count() > 3000:
+        spec_md -= 1
+        full = TypedTerms(prims, forb, request, spec_md, spec_mv, const_types, rec, see_parent=True)
+    if full.count() > MAX_LANG["thorough"]:
         return {"key": key, "nontrivial": False, "tags": tags + ["too-large"], "failures": []}
+    terms = full.terms()
 
     def fail(kind, what, detail):
         f = {"kind": kind, "what": what, "detail": detail}
@@ -309,6 +316,9 @@ def check(case, M):
         except RecursionError:
             lang = None
             fail("oracle", "depth-bounded grammar has a cyclic rule table", "")
+        except OverflowError:
+            lang = None
+            fail("oracle", "language of the grammar differs from the well-typed terms", f"more than {4 * MAX_LANG['thorough']} programs derivable from the rule table, {len(py_full)} well-typed terms")
         if lang is not None and lang != py_full:
             extra = sorted(set(lang) - set(py_full))[:3]
             missing = sorted(set(py_full) - set(lang))[:3]
